@@ -172,7 +172,7 @@ XML_CONTEXTS = [
 
 def rerun(conc):
     m = re.search(r'replay/src/bin/(\w+)\.rs', conc.get('tool', ''))
-    bin_name = m.group(1) if m and m.group(1) in ('xtok', 'xrt', 'htok', 'hser', 'htrace', 'henc', 'hshadow') else 'htok'
+    bin_name = m.group(1) if m and m.group(1) in ('xtok', 'xrt', 'htok', 'hser', 'htrace', 'henc', 'hshadow', 'xns') else 'htok'
     tool, err = build_tool(bin_name)
     if tool is None:
         print('cannot build the replay tool:', err)
@@ -186,6 +186,14 @@ def rerun(conc):
         import kanirun
         doc = re.sub(r'\\(["\'])', r'\1', body)
         hit = [c for c in kanirun.HENC_CASES if c[1] == doc]
+        if not hit:
+            print('the document of this replay file is not one of the registered cases:', doc)
+            return 2
+        line = '%s\t%s' % hit[0]
+    if bin_name == 'xns':
+        import kanirun
+        doc = re.sub(r'\\(["\'])', r'\1', body)
+        hit = [c for c in kanirun.XNS_CASES if c[1] == doc]
         if not hit:
             print('the document of this replay file is not one of the registered cases:', doc)
             return 2
